@@ -256,14 +256,14 @@ def startFormatRead (D : Desc) (s : St) (f : Fsm) : St :=
 
 /-! ### ring of unsolicited events -/
 
-def popUnsolicited (D : Desc) (s : St) : St × Option (Nat × CmdType) :=
-  if Gen.is_unsolicited_buffer_empty s.rcount then (s, none)
-  else
-    let s := s.chk (s.rhead < D.cap)
-    let item := s.ring.getD s.rhead (0, .none)
-    let h := s.rhead + 1
-    let s := { s with rhead := if h ≥ D.cap then 0 else h, rcount := s.rcount - 1 }
-    (s, some item)
+/-- the oldest queued event -/
+def ringFront (s : St) : Nat × CmdType := s.ring.getD s.rhead (0, .none)
+
+/-- `pop_unsolicited_cmd` on a non-empty ring: advance the head -/
+def ringPop (D : Desc) (s : St) : St :=
+  let s := s.chk (s.rhead < D.cap)
+  let h := s.rhead + 1
+  { s with rhead := if h ≥ D.cap then 0 else h, rcount := s.rcount - 1 }
 
 /-- `push_unsolicited_cmd`; result is the `cat_status` -/
 def pushUnsolicited (D : Desc) (s : St) (c : Nat) (t : CmdType) : St × Int :=
@@ -434,15 +434,9 @@ def notFoundOrError (s : St) : St :=
 def searchCommand (D : Desc) (s : St) : St × Int :=
   let s := s.chkUb (s.index < D.commandsNum)
   let (s, st) := getCmdState D s s.index
-  let early : Option St :=
-    if st == 1 then
-      if s.cmd.isSome && s.index + 1 == D.commandsNum then some (notFoundOrError s)
-      else none
-    else if st == 2 then some { s with cmd := some s.index, state := .commandFound }
-    else none
-  match early with
-  | some s => (s, Gen.CAT_STATUS_BUSY)
-  | none =>
+  if st == 1 && s.cmd.isSome && s.index + 1 == D.commandsNum then (notFoundOrError s, Gen.CAT_STATUS_BUSY)
+  else if st == 2 then ({ s with cmd := some s.index, state := .commandFound }, Gen.CAT_STATUS_BUSY)
+  else
     let s := if st == 1 then { s with cmd := some s.index, partialCntr := s.partialCntr + 1 } else s
     let s := { s with index := s.index + 1 }
     let s :=
@@ -503,51 +497,56 @@ def validateUIntRange (s : St) (v : VarD) (val : Nat) : St × Bool :=
     else if v.dataSize == 4 then chk 32
     else (s, false)
 
+/-- the type switch of `parse_write_args`: parse the text at `position`, validate, store.
+Result: new state, the C local `stat`, and whether parsing and validation succeeded. -/
+def parseVarValue (D : Desc) (s : St) (v : VarD) : St × Int × Bool :=
+  let txt := region D s .cmd s.position
+  match v.type with
+  | .intDec =>
+    let r := parseIntDec txt 0 0 false 0
+    let s := { (s.chk (!r.off)) with position := s.position + r.used }
+    if r.ret < 0 then (s, r.ret, false)
+    else let (s, ok) := validateIntRange s v r.neg r.val; (s, r.ret, ok)
+  | .uintDec =>
+    let r := parseUIntDec txt 0 false 0
+    let s := { (s.chk (!r.off)) with position := s.position + r.used }
+    if r.ret < 0 then (s, r.ret, false)
+    else let (s, ok) := validateUIntRange s v r.val; (s, r.ret, ok)
+  | .numHex =>
+    let r := parseNumHex txt 0 0 0
+    let s := { (s.chk (!r.off)) with position := s.position + r.used }
+    if r.ret < 0 then (s, r.ret, false)
+    else let (s, ok) := validateUIntRange s v r.val; (s, r.ret, ok)
+  | .bufHex =>
+    let r := parseBufHex v.dataSize txt 0 false [] 0
+    let s := { (s.chk (!r.off)) with position := s.position + r.used }
+    let s := if v.access == .ro then s else slotWrite s v.slot 0 r.stored
+    if r.ret < 0 then (s, r.ret, false)
+    else ({ s with writeSize := if v.access == .ro then 0 else r.size }, r.ret, true)
+  | .bufString =>
+    let r := parseBufString v.dataSize txt 0 [] 0
+    let s := { (s.chk (!r.off)) with position := s.position + r.used }
+    let s := if v.access == .ro then s else slotWrite s v.slot 0 r.stored
+    if r.ret < 0 then (s, r.ret, false)
+    else ({ s with writeSize := if v.access == .ro then 0 else r.size }, r.ret, true)
+
+/-- the variable write callback, if the variable has one; Bool = "returned non-zero" -/
+def varWriteCb (D : Desc) (s : St) (v : VarD) (i : SvcIn) : St × Bool :=
+  if v.hasWrite then
+    let s := s.emit (.varcb .cmd (s.cmd.getD 0) s.index true s.writeSize i.vc.ret)
+    (applyNested D .cmd false s i.vc.acts, i.vc.ret != (0 : Int))
+  else (s, false)
+
 /-- one call of `parse_write_args` -/
 def parseWriteArgs (D : Desc) (s : St) (i : SvcIn) : St × Int :=
   let s := s.chkUb s.cmd.isSome
   let c := D.cmdD s.cmd
   let s := s.chkUb (s.index < c.varNum)
   let v := c.varAt s.index
-  let txt := region D s .cmd s.position
-  -- parse + validate + store; `stat` is the C local
-  let (s, stat, ok) : St × Int × Bool :=
-    match v.type with
-    | .intDec =>
-      let r := parseIntDec txt 0 0 false 0
-      let s := { (s.chk (!r.off)) with position := s.position + r.used }
-      if r.ret < 0 then (s, r.ret, false)
-      else let (s, ok) := validateIntRange s v r.neg r.val; (s, r.ret, ok)
-    | .uintDec =>
-      let r := parseUIntDec txt 0 false 0
-      let s := { (s.chk (!r.off)) with position := s.position + r.used }
-      if r.ret < 0 then (s, r.ret, false)
-      else let (s, ok) := validateUIntRange s v r.val; (s, r.ret, ok)
-    | .numHex =>
-      let r := parseNumHex txt 0 0 0
-      let s := { (s.chk (!r.off)) with position := s.position + r.used }
-      if r.ret < 0 then (s, r.ret, false)
-      else let (s, ok) := validateUIntRange s v r.val; (s, r.ret, ok)
-    | .bufHex =>
-      let r := parseBufHex v.dataSize txt 0 false [] 0
-      let s := { (s.chk (!r.off)) with position := s.position + r.used }
-      let s := if v.access == .ro then s else slotWrite s v.slot 0 r.stored
-      if r.ret < 0 then (s, r.ret, false)
-      else ({ s with writeSize := if v.access == .ro then 0 else r.size }, r.ret, true)
-    | .bufString =>
-      let r := parseBufString v.dataSize txt 0 [] 0
-      let s := { (s.chk (!r.off)) with position := s.position + r.used }
-      let s := if v.access == .ro then s else slotWrite s v.slot 0 r.stored
-      if r.ret < 0 then (s, r.ret, false)
-      else ({ s with writeSize := if v.access == .ro then 0 else r.size }, r.ret, true)
+  let (s, stat, ok) := parseVarValue D s v
   if !ok then (ackError D s, Gen.CAT_STATUS_BUSY)
   else
-    -- variable write callback
-    let (s, cbFail) :=
-      if v.hasWrite then
-        let s := s.emit (.varcb .cmd (s.cmd.getD 0) s.index true s.writeSize i.vc.ret)
-        (applyNested D .cmd false s i.vc.acts, i.vc.ret != (0 : Int))
-      else (s, false)
+    let (s, cbFail) := varWriteCb D s v i
     if cbFail then (ackError D s, Gen.CAT_STATUS_BUSY)
     else
       let s := { s with index := s.index + 1 }
@@ -625,25 +624,32 @@ def nextFormatVar (D : Desc) (s : St) (f : Fsm) : St × Bool :=
       (s.setPos f (s.pos f + 1), true)
   else (s, false)
 
+/-- the variable read callback, if the variable has one; Bool = "returned non-zero" -/
+def varReadCb (D : Desc) (s : St) (f : Fsm) (v : VarD) (i : SvcIn) : St × Bool :=
+  let ans := match f with | .cmd => i.vc | .uns => i.vu
+  if v.hasRead then
+    let s := s.emit (.varcb f ((s.cmdOf f).getD 0) (s.idx f) false 0 ans.ret)
+    (applyNested D f false s ans.acts, ans.ret != (0 : Int))
+  else (s, false)
+
+/-- the type switch of `format_read_args` -/
+def formatVar (D : Desc) (s : St) (f : Fsm) (v : VarD) : St × Bool :=
+  match v.type with
+  | .intDec => formatIntDecimal D s f v
+  | .uintDec => formatUIntDecimal D s f v
+  | .numHex => formatNumHexadecimal D s f v
+  | .bufHex => formatBufferHexadecimal D s f v
+  | .bufString => formatBufferString D s f v
+
 def formatReadArgs (D : Desc) (s : St) (f : Fsm) (i : SvcIn) : St × Int :=
   let s := s.chkUb (s.cmdOf f).isSome
   let c := D.cmdD (s.cmdOf f)
   let s := s.chkUb (s.idx f < c.varNum)
   let v := c.varAt (s.idx f)
-  let ans := match f with | .cmd => i.vc | .uns => i.vu
-  let (s, cbFail) :=
-    if v.hasRead then
-      let s := s.emit (.varcb f ((s.cmdOf f).getD 0) (s.idx f) false 0 ans.ret)
-      (applyNested D f false s ans.acts, ans.ret != (0 : Int))
-    else (s, false)
+  let (s, cbFail) := varReadCb D s f v i
   if cbFail then (endError D s f, Gen.CAT_STATUS_BUSY)
   else
-    let (s, ok) := match v.type with
-      | .intDec => formatIntDecimal D s f v
-      | .uintDec => formatUIntDecimal D s f v
-      | .numHex => formatNumHexadecimal D s f v
-      | .bufHex => formatBufferHexadecimal D s f v
-      | .bufString => formatBufferString D s f v
+    let (s, ok) := formatVar D s f v
     if !ok then (endError D s f, Gen.CAT_STATUS_BUSY)
     else
       let (s, more) := nextFormatVar D s f
@@ -694,14 +700,14 @@ def parseCommandArgs (D : Desc) (s : St) (i : SvcIn) : St × Int :=
 
 /-- `check_unsolicited_buffers` -/
 def checkUnsolicitedBuffers (D : Desc) (s : St) : St :=
-  match popUnsolicited D s with
-  | (s, none) => s
-  | (s, some (c, t)) =>
-    let s := ({ s with ucmd := some c, ucmdType := t } : St).emit (.pop c t)
-    match t with
-    | .read => startFormatRead D s .uns
-    | .test => startFormatTest D s .uns
-    | _ => s
+  if Gen.is_unsolicited_buffer_empty s.rcount then s
+  else
+    let item := ringFront s
+    let s := ringPop D s
+    let s := ({ s with ucmd := some item.1, ucmdType := item.2 } : St).emit (.pop item.1 item.2)
+    if item.2 == .read then startFormatRead D s .uns
+    else if item.2 == .test then startFormatTest D s .uns
+    else s
 
 def processIdleState (s : St) (i : SvcIn) : St × Int :=
   let (s, got) := readCmdChar s i
